@@ -2317,10 +2317,10 @@ HFSM2_CONSTEXPR(14)
 bool
 BitArrayT<NCapacity>::operator &  (const BitArray& other) const noexcept {
 	for (Index i = 0; i < UNIT_COUNT; ++i)
-		if ((_storage[i] & other._storage[i]) == 0)
-			return false;
+		if ((_storage[i] & other._storage[i]) != 0)
+			return true;
 
-	return true;
+	return false;
 }
 
 template <unsigned NCapacity>
